@@ -62,7 +62,7 @@ struct EtlLib {
         return etl::holds_alternative<T>(v);
     }
     template <typename F, typename... Vs>
-    static auto visit(F&& f, Vs&&... vs)
+    static auto visit(F&& f, Vs&&... vs) -> decltype(auto)
     {
         return etl::visit(std::forward<F>(f), std::forward<Vs>(vs)...);
     }
@@ -120,7 +120,7 @@ struct StdLib {
         return std::holds_alternative<T>(v);
     }
     template <typename F, typename... Vs>
-    static auto visit(F&& f, Vs&&... vs)
+    static auto visit(F&& f, Vs&&... vs) -> decltype(auto)
     {
         return std::visit(std::forward<F>(f), std::forward<Vs>(vs)...);
     }
@@ -206,6 +206,10 @@ struct VarRunner {
     using Tup                      = std::tuple<Ts...>;
     template <std::size_t I>
     using alt = std::tuple_element_t<I, Tup>;
+    // the by-type API (emplace<T>, in_place_type<T>, holds_alternative<T>, get_if<T>) is ill-formed for an
+    // alternative type that occurs more than once (families var.R, var.Q)
+    template <std::size_t I>
+    static constexpr bool uniq = ((std::is_same_v<alt<I>, Ts> ? 1 : 0) + ...) == 1;
 
     template <typename F>
     static void with_index(std::size_t i, F&& f)
@@ -243,11 +247,17 @@ struct VarRunner {
             std::string g;
             V const* cx = x;
             [&]<std::size_t... I>(std::index_sequence<I...>) {
-                ((h += Lib::template holds<alt<I>>(*cx) ? '1' : '0'), ...);
+                auto holds_c = [&]<std::size_t J>(std::integral_constant<std::size_t, J>) -> char {
+                    if constexpr (uniq<J>) { return Lib::template holds<alt<J>>(*cx) ? '1' : '0'; } else { return '-'; }
+                };
+                auto get_t = [&]<std::size_t J>(std::integral_constant<std::size_t, J>, auto* pv) -> char {
+                    if constexpr (uniq<J>) { return Lib::template get_if_t<alt<J>>(pv) != nullptr ? '1' : '0'; } else { return '-'; }
+                };
+                ((h += holds_c(std::integral_constant<std::size_t, I>{})), ...);
                 ((g += Lib::template get_if<I>(cx) != nullptr ? '1' : '0'), ...);
-                ((g += Lib::template get_if_t<alt<I>>(cx) != nullptr ? '1' : '0'), ...);
+                ((g += get_t(std::integral_constant<std::size_t, I>{}, cx)), ...);
                 ((g += Lib::template get_if<I>(x) != nullptr ? '1' : '0'), ...);
-                ((g += Lib::template get_if_t<alt<I>>(x) != nullptr ? '1' : '0'), ...);
+                ((g += get_t(std::integral_constant<std::size_t, I>{}, x)), ...);
             }(std::make_index_sequence<N>{});
             o.tok("h").tok(h).tok(g);
             Lib::visit([&](auto const& v) { o.tok("v").num(tid<std::remove_cvref_t<decltype(v)>>).num(enc(v)); }, *cx);
@@ -270,6 +280,32 @@ struct VarRunner {
             Lib::visit(fc, std::move(std::as_const(a)));
             Lib::visit(fc, std::move(a), std::as_const(b));
             o.tok("vc").tok(cats);
+        }
+        {
+            // [variant.visit]: visit RETURNS what the visitor returns - a reference stays a reference (decltype(auto)):
+            // is the result an lvalue / rvalue reference, does it designate the object the visitor returned (the int
+            // inside the active class alternative, else a static), and does a write through it reach that object
+            static int sink = 0;
+            auto fr = [](auto& v) -> int& {
+                if constexpr (is_class_alt<std::remove_cvref_t<decltype(v)>>) { return v.v; } else { return sink; }
+            };
+            auto fx = [](auto&&) -> int&& { return std::move(sink); };
+            o.tok("vr").b(std::is_lvalue_reference_v<decltype(Lib::visit(fr, a))>);
+            o.b(std::is_rvalue_reference_v<decltype(Lib::visit(fx, a))>);
+            o.b(std::is_lvalue_reference_v<decltype(Lib::visit([](auto&, auto&) -> int& { return sink; }, a, b))>);
+            int* want = &sink;
+            with_index(a.index(), [&](auto I) {
+                if constexpr (is_class_alt<alt<decltype(I)::value>>) {
+                    auto* p = Lib::template get_if<decltype(I)::value>(&a);
+                    if (p != nullptr) { want = &p->v; }
+                }
+            });
+            int const before = *want;
+            auto&& r         = Lib::visit(fr, a);
+            o.b(&r == want);
+            r = 4242; // through the reference (or into a temporary copy)
+            o.b(*want == 4242);
+            *want = before;
         }
         Lib::visit(
             [&](auto const& l, auto const& r) {
@@ -307,8 +343,12 @@ struct VarRunner {
                     break;
                 case 'T': // emplace<T>(args)
                     with_index(static_cast<std::size_t>(st.p), [&](auto I) {
-                        auto& r = x.template emplace<alt<decltype(I)::value>>(raw<alt<decltype(I)::value>>(st.q));
-                        o.tok("r").num(enc(r));
+                        if constexpr (uniq<decltype(I)::value>) {
+                            auto& r = x.template emplace<alt<decltype(I)::value>>(raw<alt<decltype(I)::value>>(st.q));
+                            o.tok("r").num(enc(r));
+                        } else {
+                            o.tok("nc");
+                        }
                         done = true;
                     });
                     break;
@@ -320,7 +360,11 @@ struct VarRunner {
                     break;
                 case 'Y': // in_place_type constructor, then move assignment
                     with_index(static_cast<std::size_t>(st.p), [&](auto I) {
-                        x    = V(Lib::template ipt<alt<decltype(I)::value>>(), raw<alt<decltype(I)::value>>(st.q));
+                        if constexpr (uniq<decltype(I)::value>) {
+                            x = V(Lib::template ipt<alt<decltype(I)::value>>(), raw<alt<decltype(I)::value>>(st.q));
+                        } else {
+                            o.tok("nc");
+                        }
                         done = true;
                     });
                     break;
@@ -349,8 +393,12 @@ struct VarRunner {
                 case 'L': { // converting assignment from an lvalue of the alternative type p (copy)
                     with_index(static_cast<std::size_t>(st.p), [&](auto I) {
                         alt<decltype(I)::value> const src = dec<alt<decltype(I)::value>>(st.q);
-                        x                   = src;
-                        done                = true;
+                        if constexpr (std::is_assignable_v<V&, alt<decltype(I)::value> const&>) {
+                            x = src;
+                        } else {
+                            o.tok("nc");
+                        }
+                        done = true;
                     });
                     break;
                 }
@@ -393,7 +441,11 @@ struct VarRunner {
                 case 'A': // assign the variant its own contained value (aliasing converting assignment)
                     with_index(x.index(), [&](auto I) {
                         auto const* p = Lib::template get_if<decltype(I)::value>(&x);
-                        if (p != nullptr) { x = *p; }
+                        if constexpr (std::is_assignable_v<V&, alt<decltype(I)::value> const&>) {
+                            if (p != nullptr) { x = *p; }
+                        } else {
+                            o.tok("nc");
+                        }
                         done = true;
                     });
                     break;
@@ -555,7 +607,9 @@ struct OptRunner {
             s += (Lib::nullopt < a) ? '1' : '0';
             o.tok(s);
         }
-        for (long v = 1; v <= 3; ++v) {
+        // a floating T/U pair is also compared with a NaN (unordered: the six operators become independent)
+        constexpr bool fp = std::is_floating_point_v<T> && std::is_floating_point_v<U>;
+        for (long v : {1L, 2L, 3L, fp ? NANV : 3L}) {
             T const tv = dec<T>(v);
             U const uv = dec<U>(v);
             six(o, [&](int k) { return rel6(k, std::as_const(a), tv); });
@@ -1354,6 +1408,8 @@ bool part2(std::string const& op, Toks& in, Out& impl, Out& ref);
 bool part3(std::string const& op, Toks& in, Out& impl, Out& ref);
 bool part4(std::string const& op, Toks& in, Out& impl, Out& ref);
 bool part5(std::string const& op, Toks& in, Out& impl, Out& ref);
+bool part8(std::string const& op, Toks& in, Out& impl, Out& ref);
+bool part9(std::string const& op, Toks& in, Out& impl, Out& ref);
 // the dispatcher cases whose first variant has 3 / 4 alternatives (the bulk of the visit instantiations)
 bool disp3(std::vector<i64> const& sizes, std::vector<i64> const& idx, Out& impl, Out& ref);
 bool disp4(std::vector<i64> const& sizes, std::vector<i64> const& idx, Out& impl, Out& ref);
@@ -1426,6 +1482,28 @@ bool c07parts::part5(std::string const& op, Toks& in, Out& impl, Out& ref)
     return false;
 }
 #endif
+#if C07_IN(8)
+bool c07parts::part8(std::string const& op, Toks& in, Out& impl, Out& ref)
+{
+    // repeated alternative types: only the index-based API exists; assign() must decide by INDEX
+    if (op == "var.R") { return run_variant<Tracked, Tracked>(in, impl, ref), true; }
+    // trivial default constructor, user-provided copy / move: the non-trivial special-member path must be chosen
+    if (op == "var.P") { return run_variant<int, TrivDef>(in, impl, ref), true; }
+    if (op == "var.Q") { return run_variant<Tracked, int, Tracked>(in, impl, ref), true; }
+    return false;
+}
+#endif
+#if C07_IN(9)
+bool c07parts::part9(std::string const& op, Toks& in, Out& impl, Out& ref)
+{
+    // floating alternatives that can hold a NaN (partially ordered values)
+    if (op == "var.J") { return run_variant<int, double>(in, impl, ref), true; }
+    if (op == "opt.df") { return run_optional<double, float>(in, impl, ref), true; }
+    if (op == "unx.df") { return run_unexpected<double, float>(in, impl, ref), true; }
+    if (op == "exp.rr") { return run_expected<Tracked, Tracked>(in, impl, ref), true; } // variant<Tracked, Tracked> underneath
+    return false;
+}
+#endif
 #if C07_IN(0)
 bool c07parts::part0(std::string const& op, Toks& in, Out& impl, Out& ref)
 {
@@ -1450,7 +1528,7 @@ bool vh::run_case(std::string const& op, Toks& in, Out& impl, Out& ref)
     using namespace c07parts;
     // every part returns false without consuming tokens when the family is not its own
     return part0(op, in, impl, ref) || part1(op, in, impl, ref) || part2(op, in, impl, ref) || part3(op, in, impl, ref)
-        || part4(op, in, impl, ref) || part5(op, in, impl, ref);
+        || part4(op, in, impl, ref) || part5(op, in, impl, ref) || part8(op, in, impl, ref) || part9(op, in, impl, ref);
 }
 
 VERIF_MAIN()
